@@ -68,7 +68,7 @@ theorem unix_parser_class_witnesses :
     parseListLineUnix (fun _ => .ok []) [] = .error .IndexError ∧
     parseListLineUnix (fun _ => .ok []) (encodeUtf8 "-rw-r--r-".toList) = .error .IndexError ∧
     parseListLineUnix (fun _ => .ok []) (encodeUtf8 "-r?-r--r-- 1 a b 0 Jan  1 00:00 x".toList) = .error .KeyError ∧
-    parseListLineUnix (fun _ => .ok []) (encodeUtf8 "-rwSr--r-- 1 a b 0 Jan  1 00:00 x".toList) = .error .ValueError ∧
+    parseListLineUnix (fun _ => .ok []) (encodeUtf8 "-rwEr--r-- 1 a b 0 Jan  1 00:00 x".toList) = .error .ValueError ∧
     parseListLineUnix (fun _ => .ok []) [0x2d, 0xff] = .error .UnicodeDecodeError ∧
     parseListLineUnix (fun _ => .ok []) (encodeUtf8 "lrwxrwxrwx 1 a b 0 Jan  1 00:00 x -> '".toList) = .error .IndexError := by
   refine ⟨by decide, by decide, by decide, by decide, by decide, by decide⟩
@@ -166,7 +166,7 @@ theorem epsv_total (s : Str) :
 theorem directory_response_total (s : Str) : ∃ p : PPath, parseDirectoryResponse s = p := ⟨_, rfl⟩
 
 theorem directory_response_no_quote (s : Str) (h : '"' ∉ s) : parseDirectoryResponse s = ⟨0, []⟩ := by
-  have : ∀ (s : Str) (k : Nat), '"' ∉ s → pdrLoop s k false [] = [] := by
+  have : ∀ (s : Str) (k : Bool), '"' ∉ s → pdrLoop s false k [] = [] := by
     intro s k
     induction s with
     | nil => intro _; rfl
@@ -177,7 +177,7 @@ theorem directory_response_no_quote (s : Str) (h : '"' ∉ s) : parseDirectoryRe
       simp only [pdrLoop, Bool.not_false, if_true, hc, if_false]
       exact ih hq.2
   unfold parseDirectoryResponse
-  rw [this s 0 h]
+  rw [this s false h]
   decide
 
 theorem passive_witnesses :
